@@ -71,11 +71,10 @@ type c09rec struct {
 	a      *archive.BooleanArchive
 	ops    []interface{}
 	shadow []bool // what the archive must hold according to the calls made (property-level expectation)
-	synced bool   // false after a rejected Decode (the code documents nothing about the state then)
-	// memoTrusted: false between a rejected Decode and the next call that resets the memo.  A Decode that is
-	// rejected at its k-th entry (k > 0) has already overwritten k-1 words and does NOT reset the memo, so
-	// Encoding() may then answer the text of the previous content.  That state is outside C09's quantifier
-	// (crem discards or never re-encodes such an archive); it is counted, modelled and compared, not judged.
+	synced bool   // false while the harness has no independent expectation of the content
+	// memoTrusted: false only after a rejected Decode was SEEN to change the archive (already reported as a
+	// violation; before fix C09-1 a text rejected at its k-th entry had overwritten k-1 words and kept the memo),
+	// until the next call that resets the memo, so that the one defect is not reported again on every later call.
 	memoTrusted bool
 	lastEnc     string
 	hasLast     bool
@@ -174,7 +173,7 @@ func (r *c09rec) enc() string {
 	c09stats["op_encoding"]++
 	if r.synced && !r.memoTrusted {
 		if s != c09freshEncoding(r.shadow) {
-			c09stats["stale_memo_after_rejected_decode(not judged)"]++
+			c09stats["stale_memo_after_rejected_decode(reported once)"]++
 		}
 	}
 	if r.synced && r.memoTrusted {
@@ -210,6 +209,7 @@ func c09roundtrip(n int, bits []bool, enc string, class string) {
 
 func (r *c09rec) dec(s string) bool {
 	var err error
+	wordsBefore, memoBefore := r.a.VerifWords(), r.a.VerifMemo()
 	p, _ := protect(func() { err = r.a.Decode(s) })
 	ok := !p && err == nil
 	o := c09tf(ok)
@@ -232,8 +232,14 @@ func (r *c09rec) dec(s string) bool {
 		r.memoTrusted = true
 	} else {
 		c09stats["op_decode_rejected"]++
-		r.synced = false
-		r.memoTrusted = false
+		// a rejected text must leave the archive exactly as it was (fix C09-1): the expectation stays in force
+		if fmt.Sprint(wordsBefore) != fmt.Sprint(r.a.VerifWords()) || memoBefore != r.a.VerifMemo() {
+			emit(J{"kind": "oracle", "what": "a Decode that returned an error changed the archive (words stored before the bad entry / memo not matching the content)",
+				"n": r.n, "text": s, "words_before": wordsBefore, "words_after": r.a.VerifWords(),
+				"memo_before": memoBefore, "memo_after": r.a.VerifMemo(), "class": r.class})
+			r.synced = false
+			r.memoTrusted = false
+		}
 	}
 	return ok
 }
@@ -580,17 +586,20 @@ func c09randomWalk(n int, steps int, rng *prng, canon map[int]map[string]string)
 			bits := c09pattern(n, "random", 0, rng)
 			enc := c09freshEncoding(bits)
 			v := rng.intn(c09variants + 4)
+			var ok bool
 			if v >= c09variants {
-				r.dec(enc) // the canonical text itself
+				ok = r.dec(enc) // the canonical text itself
 			} else {
-				r.dec(c09variant(enc, n, v, rng))
+				ok = r.dec(c09variant(enc, n, v, rng))
 				c09stats[fmt.Sprintf("decode_variant_%02d", v)]++
 			}
 			r.raw()
-			if !r.synced {
-				r.enc() // what a stale memo would show
+			if !ok {
+				r.enc() // after a rejected text: still the encoding of the unchanged content
 				r.raw()
-				r.resync()
+				if !r.synced {
+					r.resync()
+				}
 			}
 		case k == 18:
 			bits := append([]bool{}, r.shadow...)
@@ -1025,20 +1034,21 @@ func runC09(args []string) {
 		c09randomWalk(n, steps, rng, canon)
 	}
 	c09decodeTexts(tier, rng)
-	// the witness of theorem C09_memo_stale_after_rejected_decode, replayed on the real code (and, as a case, in Coq)
+	// regression of the defect repaired by fix C09-1 (Example C09_rejected_decode_regression), on the real code and,
+	// as a case, in Coq: Encoding(); Decode("1:zz") -> error; Encoding() still "0:0", words still [0 0]
 	{
-		w := c09new(65, "witness_stale_memo")
+		w := c09new(65, "regression_rejected_decode")
 		first := w.enc()
 		w.dec("1:zz")
 		w.raw()
 		second := w.enc()
 		words := w.a.VerifWords()
-		if first == "0:0" && second == "0:0" && len(words) == 2 && words[0] == 1 && words[1] == 0 {
-			c09stats["witness_stale_memo_reproduced_on_implementation"] = 1
+		if first == "0:0" && second == "0:0" && len(words) == 2 && words[0] == 0 && words[1] == 0 {
+			c09stats["regression_rejected_decode_holds_on_implementation"] = 1
 		} else {
-			c09stats["witness_stale_memo_reproduced_on_implementation"] = 0
+			c09stats["regression_rejected_decode_holds_on_implementation"] = 0
 		}
-		w.resync()
+		w.vals()
 		w.done()
 	}
 	c09orderCases(tier, rng)
